@@ -184,6 +184,139 @@ theorem admitted_immediately_after_quiescence (lim : Nat) (as : List Act) (s : S
   · rcases hspc with h0 | h0 | h0 | h0 | h0 <;> rcases hshut with h1 | h1 <;> cases p <;>
       (first | (have hf := hw h0; simp [admitPath, run, step, h0, h1, hsp', hwM, hwL, hc, hhk, hf]) | simp [admitPath, run, step, h0, h1, hsp', hwM, hwL, hc, hhk]) <;> omega
 
+/-- the actions by which tasks and the scheduler move on their own: no timer, no new submission, no no-op -/
+def progressActs : List Act :=
+  [.flag, .read, .take .med false, .take .low false, .take .med true, .take .low true, .close, .count, .wakeToken,
+   .tmoInc, .hinc, .begin false, .begin true, .fnRet false 0, .fnRet true 0, .modDec false, .modDec true,
+   .dec false, .dec true, .tokSend, .tokDrop]
+
+/-- **No deadlock.** As long as anything is in flight — a task anywhere between its call and the end of its
+    conclusion, a clearance request queued or held, an increment owed — some task or the scheduler can move
+    without any timer firing (no max-delay expiry, no recheck tick) and without anything new being submitted.
+    So a submitted microtask never depends on a timer to get executed and concluded. -/
+theorem no_deadlock (lim : Nat) (as : List Act) (s : St) (h : run (init lim) as = some s)
+    (hlim : 1 ≤ lim) (hbusy : ¬ s.quiescent) :
+    ∃ a ∈ progressActs, (step s a).isSome = true := by
+  have hl := limit_constant lim as s h
+  have hi := inv_run as (inv_init lim) h
+  unfold MicroTasks.Inv at hi
+  unfold St.quiescent at hbusy
+  obtain ⟨_, hfin, hhk, hspc8, hpend, _, hk1, hp1, _, _, hbal, _, _, _, _, hwake⟩ := hi
+  clear h
+  by_cases h1 : 0 < s.te
+  · exact ⟨.tmoInc, by simp [progressActs], by simp [step, h1, tmoEnq_counts]⟩
+  by_cases h2 : 0 < s.hp
+  · exact ⟨.hinc, by simp [progressActs], by simp [step, h2]⟩
+  by_cases h3 : 0 < s.c
+  · exact ⟨.begin false, by simp [progressActs], by simp [step, h3]⟩
+  by_cases h4 : 0 < s.hc
+  · exact ⟨.begin true, by simp [progressActs], by simp [step, h4]⟩
+  by_cases h5 : 0 < s.r
+  · exact ⟨.fnRet false 0, by simp [progressActs], by simp [step, h5]⟩
+  by_cases h6 : 0 < s.hr
+  · exact ⟨.fnRet true 0, by simp [progressActs], by simp [step, h6]⟩
+  by_cases h7 : 0 < s.d1
+  · exact ⟨.modDec false, by simp [progressActs], by simp [step, h7]⟩
+  by_cases h8 : 0 < s.hd1
+  · exact ⟨.modDec true, by simp [progressActs], by simp [step, h8]⟩
+  by_cases h9 : 0 < s.d2
+  · exact ⟨.dec false, by simp [progressActs], by simp [step, h9]⟩
+  by_cases h10 : 0 < s.hd2
+  · exact ⟨.dec true, by simp [progressActs], by simp [step, h10]⟩
+  by_cases h11 : 0 < s.d3
+  · by_cases hf : s.fin = 0
+    · exact ⟨.tokSend, by simp [progressActs], by simp [step, h11, hf]⟩
+    · have : s.fin = 1 := by omega
+      exact ⟨.tokDrop, by simp [progressActs], by simp [step, h11, this]⟩
+  -- only clearance requests and the scheduler are left
+  have hreq : 0 < s.wM ∨ 0 < s.wL ∨ 0 < s.sM ∨ 0 < s.sL ∨ s.hk ≠ 0 ∨ s.pend ≠ 0 := by
+    by_cases a1 : 0 < s.wM
+    · exact Or.inl a1
+    by_cases a2 : 0 < s.wL
+    · exact Or.inr (Or.inl a2)
+    by_cases a3 : 0 < s.sM
+    · exact Or.inr (Or.inr (Or.inl a3))
+    by_cases a4 : 0 < s.sL
+    · exact Or.inr (Or.inr (Or.inr (Or.inl a4)))
+    by_cases a5 : s.hk = 0
+    · by_cases a6 : s.pend = 0
+      · exact (hbusy ⟨Nat.eq_zero_of_not_pos a1, Nat.eq_zero_of_not_pos a2, Nat.eq_zero_of_not_pos a3,
+          Nat.eq_zero_of_not_pos a4, Nat.eq_zero_of_not_pos h1, Nat.eq_zero_of_not_pos h3, Nat.eq_zero_of_not_pos h5,
+          Nat.eq_zero_of_not_pos h7, Nat.eq_zero_of_not_pos h9, Nat.eq_zero_of_not_pos h2, Nat.eq_zero_of_not_pos h4,
+          Nat.eq_zero_of_not_pos h6, Nat.eq_zero_of_not_pos h8, Nat.eq_zero_of_not_pos h10, Nat.eq_zero_of_not_pos h11,
+          a5, a6⟩).elim
+      · exact Or.inr (Or.inr (Or.inr (Or.inr (Or.inr a6))))
+    · exact Or.inr (Or.inr (Or.inr (Or.inr (Or.inl a5))))
+  clear hbusy
+  have hspc : s.spc = 0 ∨ s.spc = 1 ∨ s.spc = 2 ∨ s.spc = 3 ∨ s.spc = 4 ∨ s.spc = 5 ∨ s.spc = 6 ∨ s.spc = 7 ∨ s.spc = 8 := by
+    clear hreq hbal; omega
+  rcases hspc with k | k | k | k | k | k | k | k | k
+  · exact ⟨.flag, by simp [progressActs], by simp [step, k]; split <;> rfl⟩
+  · exact ⟨.read, by simp [progressActs], by simp [step, k]; split <;> rfl⟩
+  · -- selecting: nothing is held, no increment is owed, so some request is offered
+    have hk0 : s.hk = 0 := by
+      by_cases z : s.hk = 0
+      · exact z
+      · have := hk1 z; omega
+    have hp0 : s.pend = 0 := by
+      by_cases z : s.pend = 1
+      · have := hp1 z; omega
+      · omega
+    have : 0 < s.wM ∨ 0 < s.wL ∨ 0 < s.sM ∨ 0 < s.sL := by
+      rcases hreq with w | w | w | w | w | w
+      · exact Or.inl w
+      · exact Or.inr (Or.inl w)
+      · exact Or.inr (Or.inr (Or.inl w))
+      · exact Or.inr (Or.inr (Or.inr w))
+      · exact (w hk0).elim
+      · exact (w hp0).elim
+    rcases this with w | w | w | w
+    · exact ⟨.take .med false, by simp [progressActs], by simp [step, k, w]⟩
+    · exact ⟨.take .low false, by simp [progressActs], by simp [step, k, w]⟩
+    · exact ⟨.take .med true, by simp [progressActs], by simp [step, k, w]⟩
+    · exact ⟨.take .low true, by simp [progressActs], by simp [step, k, w]⟩
+  · exact ⟨.close, by simp [progressActs], by simp [step, k]; split <;> rfl⟩
+  · exact ⟨.count, by simp [progressActs], by simp [step, k]⟩
+  · -- waiting at "full": the token must be there
+    have hf : s.fin = 1 := by
+      by_cases f : s.fin = 0
+      · have hk0 : s.hk = 0 := by
+          by_cases z : s.hk = 0
+          · exact z
+          · have := hk1 z; omega
+        have hp0 : s.pend = 0 := by
+          by_cases z : s.pend = 1
+          · have := hp1 z; omega
+          · omega
+        have := hwake k f
+        clear hreq
+        omega
+      · omega
+    exact ⟨.wakeToken, by simp [progressActs], by simp [step, k, hf]⟩
+  · have hk0 : s.hk = 0 := by
+      by_cases z : s.hk = 0
+      · exact z
+      · have := hk1 z; omega
+    have hp0 : s.pend = 0 := by
+      by_cases z : s.pend = 1
+      · have := hp1 z; omega
+      · omega
+    have : 0 < s.wM ∨ 0 < s.wL ∨ 0 < s.sM ∨ 0 < s.sL := by
+      rcases hreq with w | w | w | w | w | w
+      · exact Or.inl w
+      · exact Or.inr (Or.inl w)
+      · exact Or.inr (Or.inr (Or.inl w))
+      · exact Or.inr (Or.inr (Or.inr w))
+      · exact (w hk0).elim
+      · exact (w hp0).elim
+    rcases this with w | w | w | w
+    · exact ⟨.take .med false, by simp [progressActs], by simp [step, k, w]⟩
+    · exact ⟨.take .low false, by simp [progressActs], by simp [step, k, w]⟩
+    · exact ⟨.take .med true, by simp [progressActs], by simp [step, k, w]⟩
+    · exact ⟨.take .low true, by simp [progressActs], by simp [step, k, w]⟩
+  · exact ⟨.close, by simp [progressActs], by simp [step, k]; split <;> rfl⟩
+  · exact ⟨.count, by simp [progressActs], by simp [step, k]⟩
+
 /-! ## every single task
 
 `frun ⟨init lim, DSt.new cls var nilm⟩ tr = some f` ranges over all runs of the model in which one task — of
